@@ -94,6 +94,8 @@ def finish(run, events, tag, tier):
     run.extra["scenarios_with_strict_precondition"] = sum(1 for e in events if e.get("ctx", {}).get("pre_strict"))
     run.extra["indels_planted"] = vlib.LAST_EXTRA.get("planted", 0)
     run.extra["indels_reported"] = vlib.LAST_EXTRA.get("reported", 0)
+    run.extra["tandem_indels_planted"] = vlib.LAST_EXTRA.get("plantedT", 0)
+    run.extra["tandem_indels_reported"] = vlib.LAST_EXTRA.get("reportedT", 0)
     for e in events:
         if e["ev"] in ("lo.snps", "lo.indels") and e.get("panic") == "":
             c = e["ctx"]
